@@ -186,6 +186,10 @@ func c51CheckPoint(kind string, want c51Point, got any) *c51Fail {
 	if !ok {
 		return c51f("malformed-timestamp", "%s timestamp %q is not a JSON number in int64 ms range", kind, txt)
 	}
+	if ms != want.T && kind == "scalar" && (want.T >= c51FloatSecondsLimit || want.T <= -c51FloatSecondsLimit) {
+		// precondition of a recorded finding: Scalar/String go through float64(T)/1000
+		return c51f("scalar-timestamp-beyond-float-ms-precision", "%s timestamp %d ms is written as %s, which is %d ms", kind, want.T, txt, ms)
+	}
 	if ms != want.T {
 		return c51f(kind+"-timestamp-mismatch", "%s timestamp %d ms is written as %s, which is %d ms", kind, want.T, txt, ms)
 	}
@@ -253,6 +257,14 @@ func c51CheckPoint(kind string, want c51Point, got any) *c51Fail {
 			return false
 		}
 		return math.Abs(a-b) <= 1e-13*math.Max(math.Abs(a), math.Abs(b))
+	}
+	if len(gotB) == len(want.H.Buckets)-1 {
+		// precondition of a recorded finding: a zero bucket with a NEGATIVE count is the missing one
+		for i, w := range want.H.Buckets {
+			if w.Code == 3 && w.Count < 0 && (i >= len(gotB) || gotB[i].Code != 3) {
+				return c51f("histogram-negative-zero-bucket-missing", "histogram has a zero bucket [%v,%v] with count %v; the JSON has no zero bucket: %v", w.Lower, w.Upper, w.Count, gotB)
+			}
+		}
 	}
 	if len(gotB) < len(want.H.Buckets) {
 		return c51f("histogram-bucket-missing", "histogram has %d non-empty buckets %v, JSON has %d: %v", len(want.H.Buckets), want.H.Buckets, len(gotB), gotB)
@@ -327,6 +339,9 @@ func c51Compare(want c51Value, body []byte) *c51Fail {
 			return c51f("malformed-point", "string result: %v", res)
 		}
 		ms, txt, ok := c51Millis(arr[0])
+		if ok && ms != want.Scalar.T && (want.Scalar.T >= c51FloatSecondsLimit || want.Scalar.T <= -c51FloatSecondsLimit) {
+			return c51f("scalar-timestamp-beyond-float-ms-precision", "string timestamp %d ms is written as %s, which is %d ms", want.Scalar.T, txt, ms)
+		}
 		if !ok || ms != want.Scalar.T {
 			return c51f("scalar-timestamp-mismatch", "string timestamp %d ms is written as %s, which is %d ms", want.Scalar.T, txt, ms)
 		}
@@ -413,6 +428,9 @@ func c51Floats() []float64 {
 	return fs
 }
 
+// From 2^43 seconds on (year ~280 000) the spacing of float64 seconds exceeds one millisecond.
+const c51FloatSecondsLimit = (1 << 43) * 1000
+
 const (
 	c51APIMinMs = (math.MinInt64/1000 + 62135596801) * 1000
 	c51APIMaxMs = (math.MaxInt64/1000-62135596801)*1000 + 999
@@ -420,7 +438,7 @@ const (
 
 func c51Timestamps() []int64 {
 	ts := []int64{0, 1, -1, 9, -9, 10, -10, 99, -99, 100, -100, 999, -999, 1000, -1000, 1001, -1001, 1010, -1010, 1100, -1100, 1999, -1999, 2000, 60000, -60000,
-		1700000000123, 1700000000000, -1700000000120, 1 << 53, 1<<53 + 1, -(1<<53 + 1), 1<<53 - 1, 1 << 51, 1<<51 + 1, 1<<52 + 1, 253402300799999, -62135596800000,
+		1700000000123, 1700000000000, -1700000000120, 1 << 53, 1<<53 + 1, -(1<<53 + 1), 1<<53 - 1, 1 << 51, 1<<51 + 1, 1<<52 + 1, 253402300799999, -62135596800000, c51FloatSecondsLimit - 1, c51FloatSecondsLimit - 999, -(c51FloatSecondsLimit - 1), c51FloatSecondsLimit, c51FloatSecondsLimit + 1,
 		c51APIMinMs, c51APIMaxMs, c51APIMinMs + 1, c51APIMaxMs - 1, c51APIMinMs + 999, c51APIMaxMs - 999, c51APIMaxMs - 1000}
 	return ts
 }
@@ -674,24 +692,20 @@ func TestVerifC51(t *testing.T) {
 
 	// ---- self-test: the decoder/comparator rejects near-miss encodings
 	{
-		h := histByName[hists[0].name]
-		for i := range hists {
-			if len(hists[i].exp.Buckets) >= 3 && hists[i].exp.Buckets[0].Code != hists[i].exp.Buckets[len(hists[i].exp.Buckets)-1].Code {
-				h = &hists[i]
-				break
-			}
-		}
+		// hand-written body and expectation: the self-test must not depend on the code under test
+		hexp := &c51Hist{Count: 3, Sum: 15.5, Buckets: []c51Bucket{
+			{Code: 1, Lower: -4, Upper: -2, Count: 1, exactBounds: true},
+			{Code: 3, Lower: -0.001, Upper: 0.001, Count: 1, exactBounds: true},
+			{Code: 0, Lower: 0.125, Upper: 0.25, Count: 1, exactBounds: true}}}
+		h := &c51HistCase{exp: hexp}
 		want := c51Value{Type: "vector", Series: []c51Series{
 			{Labels: c51LabelSets[1], Points: []c51Point{{T: 1001, F: 0.1}}},
 			{Labels: c51LabelSets[0], Points: []c51Point{{T: 1001, H: h.exp}}},
 		}}
-		v := promql.Vector{{T: 1001, F: 0.1, Metric: c51Labels(c51LabelSets[1])}, {T: 1001, H: h.fh, Metric: c51Labels(c51LabelSets[0])}}
-		body, bad := c51Encode("vector", v)
-		if bad != nil {
-			t.Fatalf("self-test: encode: %v", bad)
-		}
+		body := []byte(`{"status":"success","data":{"resultType":"vector","result":[{"metric":{"__name__":"up"},"value":[1.001,"0.1"]},` +
+			`{"metric":{},"histogram":[1.001,{"count":"3","sum":"15.5","buckets":[[1,"-4","-2","1"],[3,"-0.001","0.001","1"],[0,"0.125","0.25","1"]]}]}]}}`)
 		if f := c51Compare(want, body); f != nil {
-			t.Fatalf("self-test: the unmodified encoding is rejected: %s: %s\n%s", f.sig, f.msg, body)
+			t.Fatalf("self-test: a correct encoding is rejected: %s: %s\n%s", f.sig, f.msg, body)
 		}
 		muts := []struct{ old, new, sig string }{
 			{`[1.001,"0.1"]`, `[1.01,"0.1"]`, "sample-timestamp-mismatch"},
@@ -749,7 +763,7 @@ func TestVerifC51(t *testing.T) {
 	r.Set("label_sets", len(c51LabelSets))
 
 	// 1. scalars and strings: every timestamp x every float / a few strings
-	strs := []string{"", "a", "q\"uo\\te\n <>&", "日本\x00\xff"}
+	strs := []string{"", "a", "q\"uo\\te\n <>&", "日本\x00"} // valid UTF-8 only: JSON cannot carry other bytes, and the statement is about timestamps and values
 	r.ParallelN(int64(nt*nf), func(i int64) {
 		run("scalar", []c51Elem{{ts: tss[i/int64(nf)], f: floats[i%int64(nf)]}}, "")
 	})
